@@ -638,23 +638,22 @@ func lexInsideTag(l *lexer) stateFn {
 
 func lexNegative(l *lexer) stateFn {
 	// is it unary or binary op?
-	// unary if it starts a group ('{' or '(') or an op came just before.
-	var lastType = l.lastEmit.typ
-	if lastType == itemInvalid ||
-		lastType.isOp() ||
-		lastType == itemLeftDelim ||
-		lastType == itemCase ||
-		lastType == itemComma ||
-		lastType == itemLeftParen {
-		// is it a negative number?
-		if l.peek() >= '0' && l.peek() <= '9' {
-			l.backup()
-			return lexNumber
-		}
-		l.emit(itemNegate)
-	} else {
+	// binary only if the previous token completes an operand (a value, an
+	// identifier or data reference part, or a closing bracket); everywhere else
+	// an operand must follow, so it is the unary minus.
+	switch l.lastEmit.typ {
+	case itemNull, itemBool, itemInteger, itemFloat, itemString,
+		itemIdent, itemDollarIdent, itemDotIdent, itemQuestionDotIdent, itemDotIndex, itemQuestionDotIndex,
+		itemRightBracket, itemRightParen:
 		l.emit(itemSub)
+		return lexInsideTag
 	}
+	// is it a negative number?
+	if l.peek() >= '0' && l.peek() <= '9' {
+		l.backup()
+		return lexNumber
+	}
+	l.emit(itemNegate)
 	return lexInsideTag
 }
 
